@@ -9,19 +9,35 @@ from .tools import KeyOf
 PROPERTY = "C16"
 
 
+class EqItem(Item):
+    """Items that all compare equal to each other (like 1 and 1.0) while their keys differ."""
+
+    __slots__ = ()
+
+    def __eq__(self, other):
+        return isinstance(other, EqItem)
+
+    def __ne__(self, other):
+        return not isinstance(other, EqItem)
+
+    __hash__ = None
+
+
 def _pre(n, o0, o1, o2, o3, o4, o5, o6, o7):
     L = P("L", 4)
     ok = 0 <= n <= P("N", 4)
     ops = (o0, o1, o2, o3, o4, o5, o6, o7)
     for i, o in enumerate(ops):
         if i < L:
-            ok = ok and 0 <= o <= P("G", 3)
+            ok = ok and 0 <= o <= P("G", 3) + (1 if P("drop", False) else 0)
         else:
             ok = ok and o == 0
     if P("n") is not None:
         ok = ok and n == P("n")
     if P("o0") is not None:
         ok = ok and o0 == P("o0")
+    if P("o1") is not None:
+        ok = ok and o1 == P("o1")
     return ok
 
 
@@ -53,6 +69,8 @@ def h_groupby(n: int, k0: int, k1: int, k2: int, k3: int, k4: int, k5: int, o0: 
                 if keys[i] == c:
                     v = cand
             items.append(v)
+        elif P("eqitems", False):
+            items.append(EqItem(keys[i], "0.%d" % i))
         else:
             items.append(Item(keys[i], "0.%d" % i))
     keymode = P("key", "none")
@@ -84,9 +102,18 @@ def h_groupby(n: int, k0: int, k1: int, k2: int, k3: int, k4: int, k5: int, o0: 
     try:
         for i in range(L):
             op = 0
-            for v in range(P("G", 3) + 1):
+            for v in range(P("G", 3) + 2):
                 if ops[i] == v:
                     op = v
+            if op == P("G", 3) + 1:
+                # the caller drops the groupby object and keeps only the group handles
+                trace.append("drop")
+                ga = gs = None
+                ra = rs = None
+                continue
+            if op == 0 and ga is None:
+                trace.append("-")
+                continue
             if op == 0:
                 ra, ea = D.take(ga, 1)
                 rs, es = take_sync(gs, 1)
@@ -131,6 +158,10 @@ def _grid():
         ops = [rnd.randint(0, P("G", 3)) if i < L else 0 for i in range(8)]
         if P("o0") is not None:
             ops[0] = P("o0")
+        if P("o1") is not None:
+            ops[1] = P("o1")
+        if P("drop", False):
+            ops = [o if (i >= L or rnd.random() < 0.8) else P("G", 3) + 1 for i, o in enumerate(ops)]
         out.append(tuple([n] + [rnd.choice([0, 0, 1, 1, 2]) for _ in range(6)] + ops))
     return out
 
@@ -150,7 +181,12 @@ def jobs(tier):
         else:
             for n in range(0, 6):
                 for o1 in range(0, 4):
-                    J.append({"module": "c16", "fn": "h_groupby", "part": {"N": 5, "n": n, "L": 7, "G": 3, "o0": 0, "key": key, "fl": ("acls" if n % 2 else "agen")}, "timeout": T})
+                    J.append({"module": "c16", "fn": "h_groupby", "part": {"N": 5, "n": n, "L": 7, "G": 3, "o0": 0, "o1": o1, "key": key, "fl": ("acls" if n % 2 else "agen")}, "timeout": T})
+    # items that compare equal while their keys differ; the groupby object dropped while group handles live on
+    for key in ("def", "adef"):
+        J.append({"module": "c16", "fn": "h_groupby", "part": {"N": 3, "n": 3, "L": 4, "G": 2, "key": key, "fl": "agen", "eqitems": True}, "timeout": T})
+    for key in ("none", "def"):
+        J.append({"module": "c16", "fn": "h_groupby", "part": {"N": 3, "n": 3, "L": 4, "G": 2, "key": key, "fl": "agen", "drop": True}, "timeout": T})
     # key callables that are not coroutine functions but return awaitables
     for key in ("obj", "partial", "defaw"):
         J.append({"module": "c16", "fn": "h_groupby", "part": {"N": 3, "n": 3, "L": 4, "G": 2, "key": key, "fl": "agen"}, "timeout": T})
@@ -159,7 +195,7 @@ def jobs(tier):
 
 LEVEL = "other"
 BOUNDS = {
-    "quick": "(plus sequences of 3 plain values from {None, 0, 1}) item sequences of length 0..4 with unbounded integer keys (only equality matters: every partition into runs is a path), key absent / def / async def (and, for 3 items, callable object, partial(async def), def returning a ready awaitable), every operation sequence of length 5 over {advance groupby, advance group handle 1, advance group handle 2}",
+    "quick": "(plus sequences of 3 plain values from {None, 0, 1}) item sequences of length 0..4 with unbounded integer keys (only equality matters: every partition into runs is a path), key absent / def / async def (and, for 3 items, callable object, partial(async def), def returning a ready awaitable), every operation sequence of length 5 over {advance groupby, advance group handle 1, advance group handle 2}; for 3 items also items that all compare equal while their keys differ, and sequences of length 4 that may drop the groupby object while group handles live on",
     "thorough": "length 0..5, operation sequences of length 7 starting with an advance, over {advance groupby, advance group handle 1..3}",
 }
 OUTSIDE = ["sequences longer than the bound, more group handles than G", "keys whose equality is not reflexive", "closing group handles (C04)"]
